@@ -495,7 +495,13 @@ class Executor:
         args = []
         for a in n.args:
             if isinstance(a, ast.Starred):
-                args.extend(P.iterate_concrete(self, self.eval(a.value, fr)))
+                sv = self.eval(a.value, fr)
+                try:
+                    args.extend(P.iterate_concrete(self, sv))
+                except OutOfSubset:
+                    # *args of symbolic length: only abstract callees accept it (as one packed argument)
+                    from . import loops
+                    args.append(P.StarPack(loops.as_seq(self, sv)))
             else:
                 args.append(self.eval(a, fr))
         kwargs = {}
